@@ -56,7 +56,9 @@ func NewStrategy(m *MethodEvaluator) MethodEvaluateStrategy {
 	}
 
 	// for single char class (e.g: class H end;)
-	if base.IsClassDefined([]string{m.ctx.GetFrame()}, m.objectT.ToString()) && len(m.objectT.ToString()) == 1 {
+	// (the name itself, not an instance of it: H.new.m is an instance call)
+	if base.IsClassDefined([]string{m.ctx.GetFrame()}, m.objectT.ToString()) && len(m.objectT.ToString()) == 1 &&
+		m.objectT.GetType() != base.OBJECT {
 		return &classMethodStrategy{}
 	}
 
